@@ -56,6 +56,70 @@ theorem C09_quorums_of_one_configuration_intersect (cfg : Config) (hnd : cfg.vot
     (q1 : cfg.hasQuorum Q1.length = true) (q2 : cfg.hasQuorum Q2.length = true) : ∃ v, v ∈ Q1 ∧ v ∈ Q2 :=
   Cluster.quorums_intersect cfg hnd Q1 Q2 h1 h2 s1 s2 q1 q2
 
+/-- **Quorums of ADJACENT configurations intersect** — the arithmetic that makes one-at-a-time
+    membership changes safe: if `c'` has exactly the voters of `c` plus one (`x`), every quorum
+    of `c` shares a voter with every quorum of `c'`. Read from right to left it is the removal
+    of a voter; a promotion or demotion is the addition or removal of a voter too. -/
+theorem C09_quorums_of_adjacent_configurations_intersect (c c' : Config) (hnd : c.voterIds.Nodup) (hnd' : c'.voterIds.Nodup)
+    (x : Nat) (hx : x ∉ c.voterIds) (hadj : ∀ v, v ∈ c'.voterIds ↔ (v = x ∨ v ∈ c.voterIds))
+    (Q Q' : List Nat) (h1 : Q.Nodup) (h2 : Q'.Nodup)
+    (s1 : ∀ v ∈ Q, v ∈ c.voterIds) (s2 : ∀ v ∈ Q', v ∈ c'.voterIds)
+    (q1 : c.hasQuorum Q.length = true) (q2 : c'.hasQuorum Q'.length = true) : ∃ v, v ∈ Q ∧ v ∈ Q' := by
+  have hvl : c.voterIds.length = c.voters := by simp [Config.voterIds, Config.voters]
+  have hvl' : c'.voterIds.length = c'.voters := by simp [Config.voterIds, Config.voters]
+  -- c' has one voter more
+  have hlen' : c'.voterIds.length = c.voterIds.length + 1 := by
+    have hndx : (x :: c.voterIds).Nodup := List.nodup_cons.mpr ⟨hx, hnd⟩
+    have a := List.Nodup.length_le_of_subset hnd' (fun v hv => by
+      rcases (hadj v).mp hv with rfl | h
+      · exact List.mem_cons_self
+      · exact List.mem_cons_of_mem _ h : c'.voterIds ⊆ x :: c.voterIds)
+    have b := List.Nodup.length_le_of_subset hndx (fun v hv => by
+      rcases List.mem_cons.mp hv with rfl | h
+      · exact (hadj _).mpr (Or.inl rfl)
+      · exact (hadj v).mpr (Or.inr h) : x :: c.voterIds ⊆ c'.voterIds)
+    simp only [List.length_cons] at a b
+    omega
+  by_cases hex : ∃ v, v ∈ Q ∧ v ∈ Q'
+  · exact hex
+  · exfalso
+    have hdisj : ∀ v, v ∈ Q → v ∉ Q' := fun v hv hv2 => hex ⟨v, hv, hv2⟩
+    have herase : ∀ v, v ∈ Q'.erase x → v ∈ Q' ∧ v ≠ x := by
+      intro v hv
+      exact ⟨List.mem_of_mem_erase hv, fun e => by subst e; exact (List.Nodup.mem_erase_iff h2).mp hv |>.1 rfl⟩
+    have hnd12 : (Q ++ Q'.erase x).Nodup := by
+      rw [List.nodup_append]
+      exact ⟨h1, h2.erase x, fun a ha b hb hab => hdisj a ha (hab ▸ (herase b hb).1)⟩
+    have hsub : (Q ++ Q'.erase x) ⊆ c.voterIds := by
+      intro v hv
+      rcases List.mem_append.mp hv with h | h
+      · exact s1 v h
+      · obtain ⟨hq, hne⟩ := herase v h
+        rcases (hadj v).mp (s2 v hq) with e | e
+        · exact absurd e hne
+        · exact e
+    have hlen := List.Nodup.length_le_of_subset hnd12 hsub
+    have her : Q'.length ≤ (Q'.erase x).length + 1 := by
+      rw [List.length_erase]; split <;> omega
+    rw [List.length_append] at hlen
+    unfold Config.hasQuorum at q1 q2
+    simp only [decide_eq_true_eq] at q1 q2
+    omega
+
+/-- … and configurations TWO changes apart need not: a quorum of {1,2,3} and a quorum of
+    {1,2,3,4,5} with no common member. This is the arithmetic behind known finding S4 (nodes two
+    configurations apart: followers adopt a configuration when applied, leaders when appended). -/
+theorem C09_two_apart_quorums_can_be_disjoint :
+    let c : Config := ⟨1, [(1, true), (2, true), (3, true)]⟩
+    let c2 : Config := ⟨3, [(1, true), (2, true), (3, true), (4, true), (5, true)]⟩
+    c.hasQuorum [1, 2].length = true ∧ c2.hasQuorum [3, 4, 5].length = true ∧
+      (∀ v ∈ [1, 2], c.isVoter v = true) ∧ (∀ v ∈ [3, 4, 5], c2.isVoter v = true) ∧
+      ∀ v, ¬ (v ∈ [1, 2] ∧ v ∈ [3, 4, 5]) := by
+  refine ⟨by decide, by decide, by decide, by decide, ?_⟩
+  intro v ⟨h1, h2⟩
+  simp only [List.mem_cons, List.mem_nil_iff, or_false] at h1 h2
+  omega
+
 /-- the state used by the S3 witness: a leader of five voters that has committed in its term -/
 def exS3 : Node :=
   { id := 1, role := .leader, term := 2, commitIndex := 2, lastApplied := 2,
